@@ -23,6 +23,7 @@ META = {
                        "clause (any change of AAD/payload/header changes the bytes) is a corollary of C03-C05 injectivity, not checked",
     "trusted_base": ["C02, C03-C05, C07", "ciborium round trip of byte strings"],
 }
+META["decides"] += ' (As built: every helper is analysed with all crate-local callees expanded in place; the stored value is the effect on self.<field> of the expanded body.)'
 
 # carrier -> (create helpers, verify helpers) that must agree
 FAMILIES = {
